@@ -292,9 +292,30 @@ class Purge:
     recorded multiplicity, from every peer listed in its table before its contents are destroyed."""
     id = "SYM"
 
-    def __init__(self, self_box):
+    def __init__(self, self_box, closures=None):
         self.self_box = self_box
+        self.closures = closures
         self.elems = set()
+
+    def _filter_only_excludes_self(self, closure, E):
+        cl = self.closures.run(closure, params={2: ("ref", E)})
+        if cl is None or cl["effects"] or len(cl["returns"]) != 1:
+            return False
+        r = cl["returns"][0]
+        peer = mk_field(mk_deref(mk_field(E, "0", "")), "ptr", LINK)
+        neg = False
+        if r[0] == "un" and r[1] == "Not":
+            neg, r = True, r[2]
+        a = b = None
+        if r[0] == "call" and r[2] == "core::ptr::eq" and len(r[3]) == 2:
+            a, b = r[3]
+        elif r[0] == "bin" and r[1] in ("Eq", "Ne"):
+            a, b = r[2], r[3]
+            if r[1] == "Ne":
+                neg = not neg
+        if a is None or not neg:
+            return False
+        return {a, b} == {self.self_box, peer}
 
     def on_variant(self, eng, st, inner, v, b):
         if inner[0] != "call" or inner[2] != "core::iter::Iterator::next":
@@ -308,6 +329,12 @@ class Purge:
             E = mk_field(("variant", inner, "Some", 1), "0", "")
             self.elems.add(b)
             eng.obl("SYM-3", "peer-entry", b)
+            for name, cargs in src[-1]:
+                ok = False
+                if name == "filter" and cargs and self.closures is not None:
+                    ok = self._filter_only_excludes_self(cargs[0], E)
+                if not ok:
+                    eng.violate("SYM-3", "purge-iteration-restricted:%s" % name, "the purge of a dying object walks its link table through `%s`, which can skip peers other than the object itself: skipped peers keep records naming freed memory" % name, b, st)
             return add(st, ("purge_pending", E, b))
         if v == "0":
             return add(st, ("purged", self.self_box))
